@@ -122,7 +122,7 @@ Proof. vm_compute. reflexivity. Qed.
 Example C20_example_search :
   let f := fun x : Q => - (x * x) in
   let r := evaluate_search f (1 # 20) [-8; -4; 0; 4; 8] 5 in
-  Qlist_eqb (fst (fst r)) [-3; -3 # 2; 0; 3 # 2; 3] = true.
+  Qlist_eqb (fst (fst r)) [-181 # 64; -181 # 128; 0; 181 # 128; 181 # 64] = true.
 Proof. vm_compute. reflexivity. Qed.
 
 Print Assumptions C20_trapezium_inverse_cdf.
